@@ -60,7 +60,7 @@ Definition al := approx_list.
             op = rng.choice(self.OPS)
             L = rng.randint(1, 50) if rng.random() < 0.3 else rng.randint(1, 14)
             n = rng.randint(1, 16) if rng.random() < 0.3 else rng.randint(1, 6)
-            a = gens.sorted_x(rng, L) if rng.random() < 0.6 else gens.values(rng, L)
+            a = gens.sorted_x(rng, L) if rng.random() < 0.5 else (gens.values(rng, L) if rng.random() < 0.7 else gens.loose_x(rng, L))
             if op == "ext_lin" and L < n + 1:
                 n = max(1, L - 1)
                 if L < n + 1:
